@@ -745,7 +745,21 @@ PRINT_CONTEXTS = ["V^-(S)", "-(S)", "(S)^c", "V - (S)", "V / (S)", "(S) / V", "(
                   "V^(S)", "-(S)^c", "c(S)^c", "V^-(c(S)^c)", "V - -(S)", "(S) - (S)", "-(-(S))", "(S)!" ]
 
 
-def fill_shape(rng, shape, vs):
+def neighbour_shape(rng, shape, p=0.35):
+    """The arrangement itself, or (35 %) a neighbour in which one binary operator is
+    replaced by its inverse (+ <-> -, * <-> /): the arrangements a rule must tell apart
+    from the one it handles -- refuse, or handle with the sign kept."""
+    if rng.random() >= p:
+        return shape
+    swap = {" + ": " - ", " - ": " + ", " * ": " / ", " / ": " * "}
+    sites = [i for i in range(len(shape) - 2) if shape[i:i + 3] in swap]
+    if not sites:
+        return shape
+    i = rng.choice(sites)
+    return shape[:i] + swap[shape[i:i + 3]] + shape[i + 3:]
+
+
+def fill_shape(rng, shape, vs, like=None):
     out = []
     i = 0
     while i < len(shape):
@@ -754,9 +768,13 @@ def fill_shape(rng, shape, vs):
             sub = kind_tree_text(rng, rng.choice([0, 1, 1, 2]), vs)
             out.append(sub if ch == "S" else "(" + sub + ")")
         elif ch == "T":
-            out.append(rng.choice([rw_number(rng) + rng.choice(vs) + "^" + rw_exp(rng), rw_number(rng) + rng.choice(vs),
-                                   rng.choice(vs), rng.choice(vs) + "^" + rw_exp(rng), "-" + rng.choice(vs),
-                                   "-" + rng.choice(vs) + "^" + rw_exp(rng), rw_number(rng)]))
+            if like is not None:
+                out.append(rng.choice([rw_number(rng) + like, rw_number(rng) + like, like, "-" + like,
+                                       rw_number(rng) + like + "^" + rw_exp(rng), like + "^" + rw_exp(rng)]))
+            else:
+                out.append(rng.choice([rw_number(rng) + rng.choice(vs) + "^" + rw_exp(rng), rw_number(rng) + rng.choice(vs),
+                                       rng.choice(vs), rng.choice(vs) + "^" + rw_exp(rng), "-" + rng.choice(vs),
+                                       "-" + rng.choice(vs) + "^" + rw_exp(rng), rw_number(rng)]))
         elif ch == "V":
             out.append(rng.choice(vs))
         elif ch == "c":
@@ -859,7 +877,12 @@ class RewriteSim:
             text = fill_shape(rng, rng.choice(PRINT_CONTEXTS), rng.choice(["xyz", "ab", "x", "fgq"]))
         elif source == "rule-shapes":
             vs = rng.choice(["xyz", "ab", "x", "fgq"])
-            text = fill_shape(rng, rng.choice(RULE_SHAPES), vs)
+            if rng.random() < 0.4:
+                # like-term arrangements and their sign-flipped neighbours, the terms sharing one variable
+                two_t = [sh for sh in RULE_SHAPES if sh.count("T") >= 2]
+                text = fill_shape(rng, neighbour_shape(rng, rng.choice(two_t), p=0.7), vs, like=rng.choice(vs))
+            else:
+                text = fill_shape(rng, neighbour_shape(rng, rng.choice(RULE_SHAPES)), vs)
             if rng.random() < 0.3 and "=" not in text:
                 text = fill_shape(rng, rng.choice(["(S) + V", "V * (S)", "(S) - c", "-(S)", "(S) / c"]).replace("S", "@"),
                                   vs).replace("@", text)
